@@ -28,14 +28,20 @@ def _build(repo, rels):
     opts.follow_imports = "silent"
     opts.python_version = (3, 12)
     opts.strict_equality = True
-    srcs = []
-    for rel, m in repo.modules.items():
+    srcs, seen = [], {}
+    for rel, m in sorted(repo.modules.items(), key=lambda kv: (not kv[0].endswith("__init__.py"), kv[0])):
+        if m.name in seen:  # e.g. accelforge/mapper.py shadowed by the package accelforge/mapper/
+            continue
+        seen[m.name] = rel
         text = re.sub(r"#\s*type:(?!\s*ignore)", "# type :", m.src)
         srcs.append(BuildSource(os.path.join(repo.root, rel), m.name, text))
     cwd = os.getcwd()
     try:
         os.chdir(repo.root)
-        res = mbuild.build(srcs, opts)
+        try:
+            res = mbuild.build(srcs, opts)
+        except Exception as e:  # mypy CompileError etc.: typed confirmation is optional
+            return None, f"mypy build failed: {str(e)[:200]}"
     finally:
         os.chdir(cwd)
     return res, None
